@@ -11,6 +11,8 @@
     correctness: whenever the fuelled model terminates normally).
 -/
 import SPProofs.Logic.Lemmas
+import SPProofs.Logic.Tseitin
+import SPProofs.Logic.Naive
 
 namespace SPModel.C11
 open SPModel
@@ -18,13 +20,29 @@ open SPModel
 /-- Soundness and completeness of the Tseitin conversion on the original variables. -/
 theorem tseitin_models (f : Formula) (n : Nat) (hn : 0 < n) (hf : f.WF n) (σ : Assign) :
     f.eval σ = true ↔ ∃ τ, AgreeBelow n σ τ ∧ cnfSat τ (toCnfTseitin f n).cnf = true := by
-  sorry
+  obtain ⟨s, r, heq, hI, hr, hS⟩ := toCnfTseitin_spec f n hn hf
+  have hnz : ∀ c ∈ s.clauses, ∀ l ∈ c, l.v ≠ 0 := fun c hc l hl => (hI.lits c hc l hl).1
+  rw [heq]
+  constructor
+  · intro hσ
+    obtain ⟨τ, hag, hsat⟩ := hI.ex σ
+    refine ⟨τ, hag, ?_⟩
+    rw [cnfSat_tseitin τ s.clauses r s.next hnz, hsat, hS τ hsat, ← eval_congr hag f hf, hσ]
+    rfl
+  · rintro ⟨τ, hag, hsat⟩
+    rw [cnfSat_tseitin τ s.clauses r s.next hnz, Bool.and_eq_true] at hsat
+    rw [eval_congr hag f hf, ← hS τ hsat.1]
+    exact hsat.2
 
 /-- The new variables are uniquely determined. -/
 theorem tseitin_unique (f : Formula) (n : Nat) (hn : 0 < n) (hf : f.WF n) (τ₁ τ₂ : Assign)
     (h₁ : cnfSat τ₁ (toCnfTseitin f n).cnf = true) (h₂ : cnfSat τ₂ (toCnfTseitin f n).cnf = true)
     (hag : AgreeBelow n τ₁ τ₂) : AgreeBelow (toCnfTseitin f n).next τ₁ τ₂ := by
-  sorry
+  obtain ⟨s, r, heq, hI, hr, hS⟩ := toCnfTseitin_spec f n hn hf
+  have hnz : ∀ c ∈ s.clauses, ∀ l ∈ c, l.v ≠ 0 := fun c hc l hl => (hI.lits c hc l hl).1
+  rw [heq] at h₁ h₂ ⊢
+  rw [cnfSat_tseitin _ s.clauses r s.next hnz, Bool.and_eq_true] at h₁ h₂
+  exact hI.uniq τ₁ τ₂ h₁.1 h₂.1 hag
 
 /-- Every variable of the output is a variable of the formula or lies in the
     fresh range the conversion reports; literals are non-zero; the counter only grows. -/
@@ -32,19 +50,36 @@ theorem tseitin_range (f : Formula) (n : Nat) (hn : 0 < n) (hf : f.WF n) :
     n ≤ (toCnfTseitin f n).next ∧
     ∀ c ∈ (toCnfTseitin f n).cnf, ∀ l ∈ c,
       l ≠ 0 ∧ l.natAbs < (toCnfTseitin f n).next ∧ (l.natAbs < n → l.natAbs ∈ f.vars) := by
-  sorry
+  obtain ⟨s, r, heq, hI, hr, hS⟩ := toCnfTseitin_spec f n hn hf
+  rw [heq]
+  refine ⟨hI.le, ?_⟩
+  intro c hc l hl
+  simp only [TseitinResult.cnf, List.mem_append, List.mem_map, List.mem_reverse,
+    List.mem_singleton] at hc
+  rcases hc with ⟨c', hc', rfl⟩ | rfl
+  · simp only [List.mem_map] at hl
+    obtain ⟨t, ht, rfl⟩ := hl
+    have := hI.lits c' hc' t ht
+    unfold LitOK at this
+    cases t with | mk neg v =>
+    cases neg
+    · simpa [TLit.toInt] using this
+    · simpa [TLit.toInt] using this
+  · simp only [List.mem_singleton] at hl
+    subst hl
+    exact hr
 
 /-- `cnf_to_json` accepts the tree Tseitin returns and yields exactly its clauses. -/
 theorem tseitin_toJson (f : Formula) (n : Nat) :
-    cnfToJson [(toCnfTseitin f n).toFormula] = .ok (toCnfTseitin f n).cnf := by
-  sorry
+    cnfToJson [(toCnfTseitin f n).toFormula] = .ok (toCnfTseitin f n).cnf :=
+  cnfToJson_tseitin _
 
 /-- The naive conversion is logically equivalent and introduces no variables. -/
-theorem naive_equiv (f : Formula) (σ : Assign) : (toCnfNaive f).eval σ = f.eval σ := by
-  sorry
+theorem naive_equiv (f : Formula) (σ : Assign) : (toCnfNaive f).eval σ = f.eval σ :=
+  naive_equiv' f σ
 
-theorem naive_vars (f : Formula) : ∀ v ∈ (toCnfNaive f).vars, v ∈ f.vars := by
-  sorry
+theorem naive_vars (f : Formula) : ∀ v ∈ (toCnfNaive f).vars, v ∈ f.vars :=
+  naive_vars' f
 
 /-- Switching conversion, partial correctness: if the fuelled model returns
     normally, the result has the formula's models on the original variables and
